@@ -42,7 +42,7 @@ def setup(lib):
     contracts.attach(lib, which=("ragged",))
 
 
-HOSTILE = [1e16, 1.0, 3.0, 0.1, 0.7, float("nan"), 1.9, float("inf"), 0.3, -2.5e-7, float("-inf"), 123456.789]
+HOSTILE = [1e16, 1.0, 3.0, 0.1, 0.7, float("nan"), 1.9, float("inf"), 0.3, -2.5e-7, float("-inf"), 123456.789, 0.0, -0.0, -0.0, 0.0]
 
 
 def mk_case(lens, rs, cs=None, has_cs=False, vk="scalar", dtype="int64", recv="fresh", hostile=False):
@@ -193,6 +193,8 @@ def run(case):
     recv = case.get("recv", "fresh")
     hostile = case.get("hostile", False)
     val = (lambda k: float(np.array(HOSTILE[k % len(HOSTILE)], dtype=dt))) if hostile else (lambda k: BASE + k)
+    if hostile and case.get("zeros_only"):
+        val = lambda k: (-0.0, 0.0, 0.0, -0.0, -0.0)[(k + 1) % 5]
     tags = ["vk:" + vk, model.describe_selector(rs), model.describe_cols(cs, has_cs), "recv:" + recv, "values:" + ("hostile-floats" if hostile else "ids")] + gen.empty_placement(lens)
     # the value operand may come in another element type than the target (numpy casts on assignment); only types that hold the ids exactly
     vdt = np.dtype(case["valdtype"]) if (case.get("valdtype") and not hostile) else dt
@@ -275,13 +277,23 @@ def run(case):
             kind2, cells2 = model.select_cells(lens, rs2, cs2, h2)
         except model.Refused:
             return undefined("source selection refused", tags)
-        if kind2 != "RA" or kind != "RA" or [len(r) for r in cells2] != [len(r) for r in cells]:
-            return undefined("source and target selections have different shapes", tags)
+        if kind2 != "RA" or kind != "RA":
+            return undefined("source or target is not a ragged selection", tags)
         value = None
-        src_flat = model.flat_cells(kind2, cells2)
-        tags.append("overlap" if set(src_flat) & set(flatcells) else "disjoint")
-        for (i, j), (i2, j2) in zip(flatcells, src_flat):
-            exp[i][j] = pyrows[i2][j2]
+        der_ = case.get("derive")           # the value is COMPUTED from the receiver (ra * 10, ra + 100, zeros_like(ra) + 7): it carries the receiver's own geometry object
+        fder_ = {None: (lambda x_: x_), "times10": (lambda x_: x_ * 10), "plus100": (lambda x_: x_ + 100), "zeros7": (lambda x_: 7)}[der_]
+        if der_:
+            tags.append("value-derived-from-receiver")
+        if [len(r) for r in cells2] != [len(r) for r in cells]:
+            # same cells in another arrangement of rows (or other rows altogether): the row lengths differ, the value is refused
+            must_refuse = True
+            vlens, sel_lens = [len(r) for r in cells2], [len(r) for r in cells]
+            tags.append("selfsel:mismatch")
+        else:
+            src_flat = model.flat_cells(kind2, cells2)
+            tags.append("overlap" if set(src_flat) & set(flatcells) else "disjoint")
+            for (i, j), (i2, j2) in zip(flatcells, src_flat):
+                exp[i][j] = fder_(pyrows[i2][j2])
     else:
         sel_lens = [len(r) for r in cells]
         if vk == "ragged":
@@ -319,6 +331,13 @@ def run(case):
             value = "ra"                                # the receiver object itself is the value (ra[:, ::-1] = ra)
             tags.append("value-is-receiver")
             out = attempt(lambda: ra.__setitem__(idx, ra))
+        elif case.get("derive"):
+            value = "%s of ra[%s]" % (case["derive"], short(idx2))
+            fl_ = {"times10": (lambda x_: x_ * dt.type(10)), "plus100": (lambda x_: x_ + dt.type(100)), "zeros7": (lambda x_: np.zeros_like(x_) + dt.type(7))}[case["derive"]]
+            vobj = attempt(lambda: fl_(ra)[idx2] if case["src"][0] is not Ellipsis else fl_(ra))
+            if not vobj.ok:
+                return undefined("the derived value could not be computed", tags)
+            out = attempt(lambda: ra.__setitem__(idx, vobj.value))
         else:
             value = "ra[%s]" % short(idx2)
             out = attempt(lambda: ra.__setitem__(idx, ra[idx2]))
@@ -362,6 +381,14 @@ def run(case):
         return violated("ra[%s] = %s on rows of lengths %s: target is %s, expected %s%s" % (
             short(idx), short(value), lens, short(after, 240), short(exp, 240), ("; cells outside the addressed ones were written: %s" % stray[:6]) if stray else ""),
             tags + (["stray-write"] if stray else []), got=after, expected=exp)
+    if hostile and dt.kind == "f":
+        # zeros keep their sign (a column made only of zeros of both signs is not a constant column)
+        import math
+        za = [math.copysign(1.0, x) for r in after for x in r if x == 0]
+        ze = [math.copysign(1.0, x) for r in exp for x in r if x == 0]
+        if za != ze:
+            return violated("ra[%s] = %s on rows of lengths %s: the zeros of the target have signs %s, the assigned zeros have signs %s" % (short(idx), short(value), lens, short(za, 80), short(ze, 80)),
+                            tags + ["sign-of-zero"], got=after, expected=exp)
     CTX.tick("c03:bystander")
     if peek(bystander) != by_rows:
         return violated("ra[%s] = ... changed an unrelated array" % short(idx), tags + ["bystander-changed"])
@@ -431,6 +458,16 @@ def run_mask(case):
 
 # ----------------------------------------------------------------------------- workloads
 
+def signed_zero_cases():
+    """values that consist only of zeros of both signs (column vectors, flat rows, ragged values, scalars): every cell gets ITS zero"""
+    for lens in ([2, 3, 1, 2], [1, 1, 1], [3, 0, 2]):
+        for vk in ("colvec", "collist", "flat", "ragged", "scalar", "flatlist"):
+            for dtype in ("float64", "float32"):
+                for rs in (slice(None), [len(lens) - 1, 0], slice(None, None, -1)):
+                    yield dict(mk_case(lens, rs, None, False, vk, dtype, "fresh", hostile=True), zeros_only=True)
+                    yield dict(mk_case(lens, rs, slice(None, None, -1), True, vk, dtype, "lazyrows", hostile=True), zeros_only=True)
+
+
 def longrow_cases():
     """assignments into a few rows of thousands / millions of cells through every kind of column slice (see c02.longrow_cases)"""
     for lens in c02.LONGROW_SHAPES:
@@ -450,6 +487,8 @@ def longrow_cases():
 
 def directed():
     for c in longrow_cases():
+        yield c
+    for c in signed_zero_cases():
         yield c
     writable = [r_ for r_ in c02.RECVS[1:] if r_ != "readonly"]
     q = 0
@@ -565,10 +604,22 @@ def gen_selfsel(rng, tier):
     if rng.random() < 0.3:
         # the whole receiver as the value of a non-identity target of the same shape
         tgt, src, isrecv = rng.choice([(slice(None), slice(None, None, -1), True), (slice(None, None, -1), None, False), (list(range(n))[::-1], None, False), (slice(None, None, -1), slice(None, None, -1), True)]), (Ellipsis, None, False), True
+    if rng.random() < 0.35:
+        # rows of different lengths: the receiver, or something computed from it, as the value of a target that holds all its cells in another row order
+        # (accepted only where the rows line up again -- palindromic lengths -- and refused otherwise)
+        lens = [rng.randint(0, 4) for _ in range(n)]
+        if rng.random() < 0.3:
+            lens = lens[:n // 2] + lens[:(n + 1) // 2][::-1]
+        perm = list(range(len(lens)))
+        rng.shuffle(perm)
+        tgt = rng.choice([(slice(None, None, -1), None, False), (perm, None, False), (slice(None), None, False), (Ellipsis, None, False)])
+        src, isrecv = (Ellipsis, None, False), rng.random() < 0.3
     c = mk_case(lens, tgt[0], tgt[1], tgt[2], "selfsel", rng.choice(["int64", "float64", "int32"]), rng.choice(["fresh", "fresh", "fromnumpy", "ufunc", "pickle"]))
     c["src"] = list(src)
     if isrecv:
         c["value_is_receiver"] = True
+    elif rng.random() < 0.5:
+        c["derive"] = rng.choice(["times10", "plus100", "zeros7"])
     return c
 
 
